@@ -75,6 +75,11 @@ impl Navigate for Tokenizer
 		if curs.node().kind()=="string" {
 			let mut neg: Vec<u8> = vec![0x28];
 			let txt = Self::stringlike_node_to_bytes(&self.text(curs.node()), false);
+			if txt.len()<2 || txt.contains(&0x01) || txt.contains(&0x29) {
+				error!("string is unterminated or an escape produces a byte that would end it");
+				self.line = "ERR".to_string();
+				return Ok(Navigation::Exit);
+			}
 			neg.append(&mut txt[1..txt.len()-1].to_vec());
 			neg.push(0x29);
 			self.tokenized_line.append(&mut neg);
@@ -83,6 +88,11 @@ impl Navigate for Tokenizer
 		// Comment text with escapes
 		if curs.node().kind()=="comment_text" {
 			let mut neg = Self::stringlike_node_to_bytes(&self.text(curs.node()), false);
+			if neg.contains(&0x01) {
+				error!("escape produces a byte that would end the line");
+				self.line = "ERR".to_string();
+				return Ok(Navigation::Exit);
+			}
 			self.tokenized_line.append(&mut neg);
 			return Ok(Navigation::GotoSibling);
 		}
@@ -186,7 +196,7 @@ impl Tokenizer
 				} else if img[addr] == OPEN_QUOTE {
 					code += "\"";
 					(escaped,addr) = super::bytes_to_escaped_string_ex(&img, addr+1, &self.config.detokenizer.escapes, &[CLOSE_QUOTE,EOL]);
-					code += &escaped;
+					code += &escaped.replace("\"","\\xa2");
 					if addr<img.len() && img[addr] == CLOSE_QUOTE {
 						code += "\"";
 						addr += 1;
